@@ -48,7 +48,7 @@ theorem C17_roundtrip (d : Duration) (hp : d.period.Pos)
     have hsf : Mag.div (asQuantity d).mag (corrUnit d.rep p').2 = [] := by
       rw [hu, hmag]; exact Mag.div_self hok
     have hrep : (asQuantity d).rep = d.rep := rfl
-    simp only [permitImplicitFrom, hsf, corePolicy, hrep, and_self, if_true]
+    simp [permitImplicitFrom, hsf, corePolicy, hrep]
     rfl
   refine ⟨rfl, rfl, by rw [hmag]; exact hv1, by rw [hmag]; exact hv2, ?_, ?_⟩
   · unfold asChronoDuration
@@ -100,18 +100,17 @@ theorem C17_accept_iff_corresponding (tgtMag : Mag) (tgtRep : Rep) (d : Duration
 
 /-- **C17, acceptance rule.**  For every target `Quantity<Seconds × tp, tr>` and every duration:
 a floating target accepts every duration; an integral target accepts exactly the integral-rep
-durations whose period is an integer multiple `k` of the target unit with `2147·k ≤ max(tr)` —
-except that for `k > max(tr)` the question itself is ill-formed (finding F2).  `ratioDivide` is
-`std::ratio_divide<Period, tp>` in lowest terms: `den = 1` says "integer multiple", `num` is `k`. -/
+durations whose period is an integer multiple `k` of the target unit with `2147·k ≤ max(tr)`.
+`ratioDivide` is `std::ratio_divide<Period, tp>` in lowest terms: `den = 1` says "integer multiple",
+`num` is `k`.  (Before the `fix:` commit for finding F2 the question was ill-formed for `k > max(tr)`;
+the model follows the fixed code, where it is simply `false`.) -/
 theorem C17_accept_formula (tp : Period) (tr : Rep) (d : Duration) (htp : tp.Pos) (hdp : d.period.Pos) :
     durationAccepted (ratioMag tp) tr d =
       match tr.intTy? with
-      | none => .ok true
+      | none => true
       | some t =>
-        if d.rep.isIntegral = false then .ok false
-        else if (ratioDivide d.period tp).den ≠ 1 then .ok false
-        else if ((ratioDivide d.period tp).num : Int) > t.hi then .hard hardMsg
-        else .ok (decide (2147 * ((ratioDivide d.period tp).num : Int) ≤ t.hi)) := by
+        d.rep.isIntegral && decide ((ratioDivide d.period tp).den = 1) &&
+          decide (2147 * ((ratioDivide d.period tp).num : Int) ≤ t.hi) := by
   obtain ⟨hiff, hval⟩ := scaleFactor_spec hdp htp
   have hok := Mag.ok_div (ok_ratioMag hdp) (ok_ratioMag htp)
   unfold durationAccepted quantityConvertible
@@ -122,7 +121,7 @@ theorem C17_accept_formula (tp : Period) (tr : Rep) (d : Duration) (htp : tp.Pos
   cases htr : tr.intTy? with
   | none =>
     unfold permitImplicitFrom
-    have : corePolicy tr (Mag.div (ratioMag d.period) (ratioMag tp)) d.rep = .ok true := by
+    have : corePolicy tr (Mag.div (ratioMag d.period) (ratioMag tp)) d.rep = true := by
       unfold corePolicy; rw [htr]; split <;> rfl
     simp [this]
   | some t =>
@@ -131,11 +130,10 @@ theorem C17_accept_formula (tp : Period) (tr : Rep) (d : Duration) (htp : tp.Pos
       unfold permitImplicitFrom
       have hne : tr ≠ d.rep := by
         intro h; rw [← h] at hsi; simp [Rep.isIntegral, htr] at hsi
-      have : corePolicy tr (Mag.div (ratioMag d.period) (ratioMag tp)) d.rep = .ok false := by
+      have : corePolicy tr (Mag.div (ratioMag d.period) (ratioMag tp)) d.rep = false := by
         unfold corePolicy; simp [hne, htr, hsi]
       simp [this, carveOut, hsi]
     | true =>
-      simp only [Bool.true_eq_false, if_false]
       rw [permit_int_int tr d.rep t htr hsi _ _ hok]
       generalize Mag.div (ratioMag d.period) (ratioMag tp) = sf at *
       cases hi : sf.isInteger with
@@ -147,30 +145,36 @@ theorem C17_accept_formula (tp : Period) (tr : Rep) (d : Duration) (htp : tp.Pos
         rw [hval hi]
         simp [hden]
 
+/-- The same rule as an equivalence. -/
+theorem C17_accept_iff (tp : Period) (tr : Rep) (d : Duration) (htp : tp.Pos) (hdp : d.period.Pos) :
+    durationAccepted (ratioMag tp) tr d = true ↔
+      tr.isFloat = true ∨
+      (∃ t, tr.intTy? = some t ∧ d.rep.isIntegral = true ∧ (ratioDivide d.period tp).den = 1 ∧
+        2147 * ((ratioDivide d.period tp).num : Int) ≤ t.hi) := by
+  rw [C17_accept_formula tp tr d htp hdp]
+  cases tr <;> simp [Rep.intTy?, Rep.isFloat, Rep.fmt?, and_assoc]
+
 /-- Au never accepts a duration that chrono's own converting constructor refuses; for a floating
 target both accept everything. -/
 theorem C17_accept_implies_chrono (tp : Period) (tr : Rep) (d : Duration) (htp : tp.Pos) (hdp : d.period.Pos)
-    (h : durationAccepted (ratioMag tp) tr d = .ok true) :
+    (h : durationAccepted (ratioMag tp) tr d = true) :
     chronoConvertible tr tp d.rep d.period = true := by
   rw [C17_accept_formula tp tr d htp hdp] at h
   unfold chronoConvertible
   cases tr <;> simp [Rep.intTy?, Rep.isFloat, Rep.fmt?] at h ⊢
   all_goals
     cases hr : d.rep <;> simp [hr, Rep.isIntegral, Rep.intTy?, Rep.fmt?] at h ⊢
-    all_goals
-      by_contra hden
-      simp [hden] at h
+    all_goals exact h.1
 
-/-- Non-vacuity / instances: int32 milliseconds accept int32 seconds (k = 1000), refuse int32
-hours?  no: 3 600 000·2147 > 2^31; the question is ill-formed for nanoseconds ← hours (F2). -/
-example : durationAccepted (ratioMag ⟨1, 1000⟩) .i32 ⟨.i32, ⟨1, 1⟩, .i 0⟩ = .ok true ∧
-    durationAccepted (ratioMag ⟨1, 1000⟩) .i32 ⟨.i32, ⟨3600, 1⟩, .i 0⟩ = .ok false ∧
-    durationAccepted (ratioMag ⟨1, 1000000000⟩) .i32 ⟨.i32, ⟨3600, 1⟩, .i 0⟩ = .hard hardMsg ∧
-    durationAccepted (ratioMag ⟨1, 1⟩) .i32 ⟨.i32, ⟨1000225, 1⟩, .i 0⟩ = .ok true ∧
-    durationAccepted (ratioMag ⟨1, 1⟩) .i32 ⟨.i32, ⟨1000226, 1⟩, .i 0⟩ = .ok false := by
+/-- Non-vacuity / instances: int32 milliseconds accept int32 seconds (k = 1000) but not int32 hours
+(3 600 000·2147 > 2³¹); nanoseconds ← hours has k = 3.6·10¹² > max(int32): refused (this was the
+ill-formed region of F2); the threshold sits exactly between k = 1000225 and k = 1000226. -/
+example : durationAccepted (ratioMag ⟨1, 1000⟩) .i32 ⟨.i32, ⟨1, 1⟩, .i 0⟩ = true ∧
+    durationAccepted (ratioMag ⟨1, 1000⟩) .i32 ⟨.i32, ⟨3600, 1⟩, .i 0⟩ = false ∧
+    durationAccepted (ratioMag ⟨1, 1000000000⟩) .i32 ⟨.i32, ⟨3600, 1⟩, .i 0⟩ = false ∧
+    durationAccepted (ratioMag ⟨1, 1⟩) .i32 ⟨.i32, ⟨1000225, 1⟩, .i 0⟩ = true ∧
+    durationAccepted (ratioMag ⟨1, 1⟩) .i32 ⟨.i32, ⟨1000226, 1⟩, .i 0⟩ = false := by
   decide +kernel
-
-
 
 /-! ## Mixed duration / quantity operations -/
 
@@ -237,26 +241,64 @@ theorem C17_mixed_ops_unconditional_counterexample : ¬ C17_mixed_ops_unconditio
 
 /-! ## Well-formedness of mixed operations -/
 
-/-- What the documentation promises: a mixed operation is well-formed exactly when the
-overflow-threshold policy admits both conversions to the common type. -/
-def C17_mixed_compiles_full : Prop :=
-  ∀ (q1 q2 : Quantity), mixedCompiles q1 q2 = policyCompiles q1 q2
+/-- A mixed operation is well-formed exactly when the overflow-threshold policy admits both
+conversions to the common type: for a floating common rep always; for an integral common rep `t`
+iff both scale factors `kᵢ` (integers by `C17_common_period`) satisfy `2147·kᵢ ≤ max(t)`.
+(Before the `fix:` commit for finding F2 there was an additional ill-formed region: int32 Quantity
+against an int64 duration more than 2³¹ times coarser, e.g. `Quantity<Nano<Seconds>, int32_t>{} <
+std::chrono::hours{}`; found by this check, gone with the fix.) -/
+theorem C17_mixed_compiles_iff (q : Quantity) (d : Duration) (p1 : Period) (hm : q.mag = ratioMag p1)
+    (h1 : p1.Pos) (h2 : d.period.Pos) :
+    mixedCompilesQD q d = .ok () ↔
+      match (Rep.common q.rep d.rep).intTy? with
+      | none => True
+      | some t =>
+        2147 * ((ratioDivide p1 (chronoCommonPeriod p1 d.period)).num : Int) ≤ t.hi ∧
+        2147 * ((ratioDivide d.period (chronoCommonPeriod p1 d.period)).num : Int) ≤ t.hi := by
+  obtain ⟨hcm, _, _, _, hk1, hn1, hden1, hk2, hn2, hden2⟩ := common_period_all p1 d.period h1 h2
+  have hokc := Mag.ok_common (ok_ratioMag h1) (ok_ratioMag h2)
+  have hok1 := Mag.ok_div (ok_ratioMag h1) hokc
+  have hok2 := Mag.ok_div (ok_ratioMag h2) hokc
+  unfold mixedCompilesQD mixedCompiles commonQuantity
+  simp only [hm, asQuantity_mag]
+  have hrep : (asQuantity d).rep = d.rep := rfl
+  rw [hrep]
+  generalize Rep.common q.rep d.rep = cr
+  have core : ∀ sf : Mag, Mag.Ok sf → sf.isInteger = true →
+      corePolicy cr sf cr = match cr.intTy? with
+        | none => true
+        | some t => decide (2147 * (sf.natValue : Int) ≤ t.hi) := by
+    intro sf hok hi
+    cases hcr : cr.intTy? with
+    | none => unfold corePolicy; rw [hcr]; split <;> rfl
+    | some t =>
+      have hint : cr.isIntegral = true := by simp [Rep.isIntegral, hcr]
+      have := permit_int_int cr cr t hcr hint [] sf (by rwa [Mag.div_nil])
+      rw [Mag.div_nil, hi, Bool.true_and] at this
+      unfold permitImplicitFrom at this
+      simp only [Mag.div_nil] at this
+      by_cases hnil : sf = []
+      · subst hnil
+        have ht : (2147 : Int) ≤ t.hi := by
+          cases cr <;> simp [Rep.intTy?] at hcr <;> subst hcr <;> decide
+        simp [corePolicy, Mag.natValue, ht]
+      · have hcarve : carveOut cr sf cr = false := by simp [carveOut, hnil]
+        rw [hcarve, Bool.or_false] at this
+        exact this
+  unfold asUnitOnlyOk
+  rw [core _ hok1 hk1, core _ hok2 hk2, hn1, hn2]
+  cases hcr : cr.intTy? with
+  | none => simp
+  | some t =>
+    simp only []
+    by_cases ha : 2147 * ((ratioDivide p1 (chronoCommonPeriod p1 d.period)).num : Int) ≤ t.hi
+    · by_cases hb : 2147 * ((ratioDivide d.period (chronoCommonPeriod p1 d.period)).num : Int) ≤ t.hi
+      · simp [ha, hb]
+      · simp [ha, hb]
+    · simp [ha]
 
-/-- False on the code as it is (finding F2 leaks through overload resolution):
-`Quantity<Nano<Seconds>, int32_t>` op `std::chrono::hours` (int64 rep) is ill-formed although the
-common type (int64 nanoseconds, factor 3.6·10¹²) passes the policy. -/
-theorem C17_mixed_compiles_counterexample : ¬ C17_mixed_compiles_full := by
-  intro h
-  have := h ⟨.i32, ratioMag ⟨1, 1000000000⟩, none, .i 0⟩ (asQuantity ⟨.i64, ⟨3600, 1⟩, .i 0⟩)
-  revert this
-  decide +kernel
-
-/-- Outside the F2 region the promise holds. -/
-theorem C17_mixed_compiles_partial (q1 q2 : Quantity) (h : friendsWellFormed q1 q2 = .ok ()) :
-    mixedCompiles q1 q2 = policyCompiles q1 q2 := by
-  unfold mixedCompiles; rw [h]
-
-example : friendsWellFormed ⟨.i32, ratioMag ⟨1, 1000⟩, none, .i 0⟩ (asQuantity ⟨.i64, ⟨3600, 1⟩, .i 0⟩) = .ok () := by
+example : mixedCompilesQD ⟨.i32, ratioMag ⟨1, 1000000000⟩, none, .i 0⟩ ⟨.i64, ⟨3600, 1⟩, .i 0⟩ = .ok () ∧
+    mixedCompilesQD ⟨.i32, ratioMag ⟨1, 1000000000⟩, none, .i 0⟩ ⟨.i32, ⟨3600, 1⟩, .i 0⟩ ≠ .ok () := by
   decide +kernel
 
 end Au.Chrono
